@@ -480,3 +480,466 @@ def run_cases(cases, wd, tag, jobs=4):
         for j, r in enumerate(part):
             out[ix + j * jobs] = r
     return out
+
+
+# ----------------------------------------------------------------------------- P: trace validation (batched)
+
+def first_match(patterns, uri):
+    """C18's reading of a route table: the first pattern (registration order) whose segments match; parameters by name"""
+    segs = uri.strip("/").split("/")
+    for i, p in enumerate(patterns):
+        ps = p.strip("/").split("/")
+        if len(ps) != len(segs):
+            continue
+        if all(a.startswith(":") or a == b for a, b in zip(ps, segs)):
+            return {"route": i + 1, "params": sorted([a[1:], b] for a, b in zip(ps, segs) if a.startswith(":"))}
+    return {"route": 0, "params": []}
+
+
+def trace_of(cid, case, res, open_ids):
+    """the recorded execution of one harness case as events of Trace_ServerPlane (concrete node URIs, envelope numbers)"""
+    pats = case["cfg"]["routes"]
+    uris = set()
+    for g in case["groups"]:
+        for a in g:
+            if "u" in a:
+                uris.add(a["u"])
+    evs = []
+
+    def conv(e):
+        k = e["k"]
+        if isinstance(e.get("u"), str):
+            uris.add(e["u"])
+        if k == "send":
+            return {"k": k, "r": e["r"], "u": e["u"], "op": e["op"], "e": int(e.get("e", 0))}
+        if k == "agent_run":
+            uris.add(e["u"])
+            return {"k": k, "u": e["u"], "route": e["route"], "params": sorted([a, b] for a, b in e["params"].items()), "n": e["n"]}
+        if k == "deliver":
+            body = e.get("body", "0")
+            return {"k": k, "u": e["u"], "n": e["n"], "op": e["op"], "e": int(body) if str(body).lstrip("-").isdigit() else -1}
+        if k == "recv":
+            m = e["msg"]
+            kind, body = m.get("kind"), m.get("body", "")
+            uris.add(m.get("node"))
+            b = {"@nodeNotFound": "nf", '"Link closed."': "closed", "": "stop"}.get(body, body) if kind == "unlinked" else ""
+            return {"k": k, "r": e["r"], "kind": kind if m.get("lane") == "lane" else "other-lane", "u": m.get("node"), "b": b}
+        if k in ("started", "init_failed", "stopping", "stopped", "failed", "finished"):
+            uris.add(e["u"])
+            return {"k": k, "u": e["u"], "n": e["n"]}
+        if k in ("rt_end", "rt_open"):
+            uris.add(e["u"])
+            return {"k": k, "u": e["u"]}
+        if k in ("closed",):
+            return {"k": k, "r": e["r"], "code": e["code"]}
+        if k in ("eof", "connect", "disconnect", "peer_write_failed", "pause", "resume"):
+            return {"k": k, "r": e["r"]}
+        if k == "server_end":
+            return {"k": k, "ok": bool(e.get("ok"))}
+        return {"k": k}
+    shut = False
+    for g in res.get("obs", []):
+        for e in g["ev"]:
+            if e["k"] == "shutdown":
+                shut = True
+            evs.append(conv(e))
+        evs.append({"k": "settle"})
+    if not shut:
+        evs.append({"k": "shutdown"})
+    for e in res.get("end", []):
+        evs.append(conv(e))
+    evs.append({"k": "end"})
+    if res.get("panic") is not None:
+        evs.append({"k": "panic"})
+    head = {"k": "reset", "id": str(cid), "exp": {u: first_match(pats, u) for u in sorted(x for x in uris if x)}, "kf": sorted(open_ids)}
+    return [head] + evs
+
+
+def p_validate(items, wd, tag, open_ids):
+    """items: [(id, case, result)].  One TLC run of Trace_ServerPlane over all of them.
+    Returns {id: {"accepted": bool, "at": index within the execution, "ev": rejected event, "kf": [findings excusing it]}}"""
+    if not items:
+        return {}
+    events, start = [], {}
+    for cid, case, res in items:
+        start[str(cid)] = len(events)
+        events += trace_of(cid, case, res, open_ids)
+    d = os.path.join(wd, "trace_" + tag)
+    os.makedirs(d, exist_ok=True)
+    tp = os.path.join(d, "trace.ndjson")
+    core.write_ndjson(tp, events)
+    c = core.cfg(spec="TraceSpec", postcondition="TraceAccepted")
+    r = core.run_tlc("Trace_ServerPlane", c, d, workers=1, timeout=1800, depth_first=True, env={"TRACE": tp}, xmx="3g", coverage=False)
+    tr = r.tagged.get("TRACE_RESULT")
+    if not tr or not tr[-1].get("accepted"):
+        raise core.ToolError("Trace_ServerPlane did not run over the whole trace: %s\n%s" % (tr, r.stdout[-2000:]))
+    out = {str(cid): {"accepted": True, "kf": [], "events": None} for cid, _, _ in items}
+    for x in r.tagged.get("REJECT", []):
+        o = out[x["id"]]
+        if o["accepted"]:
+            o.update(accepted=False, at=x["at"] - start[x["id"]] - 1, ev=x["ev"])
+    for x in r.tagged.get("KF", []):
+        if x["f"] not in out[x["id"]]["kf"]:
+            out[x["id"]]["kf"].append(x["f"])
+    return out
+
+
+# ----------------------------------------------------------------------------- directed scenarios (judged by P only)
+
+def directed_cases(seed):
+    """hand-written executions outside M's alphabet: exact-instant sends, a slow subscriber, agent initialisation failure,
+    an agent that ends on its own, explicit start requests, an abrupt disconnect and reconnect, other route tables"""
+    cfg = {"routes": TABLES["T1"], "persist": True, "inactive_ms": INACTIVE_MS, "attach_ms": 24 * 3600 * 1000}
+    n = [0]
+
+    def S(r, u, op, **kw):
+        n[0] += 1
+        return dict({"k": "send", "r": r, "u": u, "op": op, "e": n[0]}, **kw)
+    C = lambda r: [{"k": "connect", "r": r}]
+    cases = []
+    # the envelope arrives at the very instant the agent gives up (and around it)
+    for who in (1, 2):
+        for off in (-2, -1, 0, 1):
+            n[0] = 0
+            cases.append({"id": "instant-%d-%d" % (who, off), "cfg": cfg, "groups": [
+                C(1), C(2), [S(1, "/a/x", "link")],
+                [dict(S(who, "/a/x", "command"), k="send_at", ns=(INACTIVE_MS + off) * 1000000)],
+                [{"k": "timeout"}], [S(who, "/a/x", "command")], [S(3 - who, "/a/x", "sync")]]})
+    # a linked subscriber that does not read: the stopping instance lingers until shutdown_timeout (KS1 without any help)
+    n[0] = 0
+    slow = dict(cfg, persist=False, agent_buf=64, duplex=64)
+    g = [C(1), C(2), C(3), [S(2, "/a/x", "link")], [{"k": "pause", "r": 2}]]
+    g += [[S(1, "/a/x", "command")] for _ in range(12)]
+    g += [[{"k": "timeout"}], [S(3, "/a/x", "command")], [S(1, "/b", "command")], [{"k": "advance", "ms": 31000}], [{"k": "resume", "r": 2}],
+          [S(1, "/a/x", "command")]]
+    cases.append({"id": "slow-subscriber", "cfg": slow, "groups": g, "expect_kf": "KS1"})
+    n[0] = 0
+    cases.append({"id": "fail-init", "cfg": dict(cfg, fail_init=1), "expect_kf": "KS1", "groups": [
+        C(1), C(2), [S(1, "/b", "link")], [S(2, "/a/x", "command")], [S(2, "/a/x", "command")]]})
+    n[0] = 0
+    cases.append({"id": "finish", "cfg": cfg, "groups": [
+        C(1), [S(1, "/a/x", "link")], [S(1, "/a/x", "command")], [{"k": "finish", "u": "/a/x"}], [S(1, "/a/x", "command")], [{"k": "timeout"}],
+        [S(1, "/a/x", "sync")]]})
+    n[0] = 0
+    cases.append({"id": "start-agent", "cfg": cfg, "groups": [
+        C(1), [{"k": "start_agent", "u": "/a/z"}], [{"k": "start_agent", "u": "/c"}], [S(1, "/a/z", "command")], [{"k": "start_agent", "u": "/a/z"}],
+        [{"k": "timeout"}], [{"k": "start_agent", "u": "/a/z"}], [S(1, "/a/z", "sync")]]})
+    n[0] = 0
+    cases.append({"id": "drop-reconnect", "cfg": cfg, "groups": [
+        C(1), C(2), [S(1, "/a/x", "link")], [S(2, "/a/x", "link")], [{"k": "disconnect", "r": 1, "how": "drop"}], [S(2, "/a/x", "command")],
+        C(1), [S(1, "/a/x", "sync")], [S(1, "/c", "unlink")], [{"k": "shutdown"}], [S(2, "/a/y", "command")]]})
+    for t in ("T1", "T2", "T3"):
+        n[0] = 0
+        cases.append({"id": "calm-" + t, "cfg": dict(cfg, routes=TABLES[t]), "groups": [
+            C(1), C(2), [S(1, "/a/x", "link")], [S(2, "/a/x", "command")], [S(2, "/a/y", "sync")], [S(1, "/c/d/e", "link")], [S(1, "/c/d/e", "command")],
+            [S(1, "/b", "command"), S(2, "/b", "command")], [S(1, "/a/x", "unlink")], [S(2, "/c/d/e", "sync")], [S(2, "/a/y", "command")],
+            [{"k": "shutdown"}]]})
+    # the only table with two matching routes the real server can be given: a plane route shaped like the node meta route of
+    # the introspection layer, whose routes are appended AFTER the plane's (SwimServer::new does not run
+    # check_meta_collisions, ServerBuilder::build would).  Registration order decides: the plane's agent gets the envelopes.
+    n[0] = 0
+    cases.append({"id": "overlap-meta", "cfg": dict(cfg, routes=["swimos:meta:node/:who", "/b"], introspection=True), "groups": [
+        C(1), [S(1, "swimos:meta:node/zz", "command")], [S(1, "swimos:meta:node/zz", "sync")], [S(1, "/b", "command")],
+        [S(1, "swimos:meta:node/yy", "link"), S(1, "swimos:meta:node/yy", "command")], [{"k": "shutdown"}]]})
+    n[0] = 0
+    cases.append({"id": "introspection-on", "cfg": dict(cfg, introspection=True), "expect_meta_collision": False, "groups": [
+        C(1), C(2), [S(1, "/a/x", "link")], [S(2, "/a/x", "command")], [S(2, "/c", "sync")], [{"k": "timeout"}], [S(2, "/a/x", "sync")],
+        [S(1, "/a/y", "command"), S(2, "/a/y", "command")], [{"k": "shutdown"}]]})
+    cases[-2]["expect_meta_collision"] = True
+    for t, uris in (("T2", ["/a/x", "/b", "/a", "/b/x"]), ("T3", ["/a/x", "/x/a", "/b", "/a/x/z", "/c"])):
+        n[0] = 0
+        g = [C(1)]
+        for u in uris:
+            g += [[S(1, u, "sync")], [S(1, u, "command")]]
+        g += [[{"k": "timeout"}]] + [[S(1, u, "command"), S(1, u, "link")] for u in uris]
+        cases.append({"id": "table-" + t, "cfg": dict(cfg, routes=TABLES[t]), "groups": g})
+    return cases
+
+
+def tampered(trace_items):
+    """P's own negative control: executions P accepted, falsified in one place each; P must reject every one"""
+    out = []
+    for cid, case, res in trace_items:
+        evs = [e for g in res["obs"] for e in g["ev"]]
+        kinds = [e["k"] for e in evs]
+
+        def clone():
+            return json.loads(json.dumps(res))
+        if "deliver" in kinds and "agent_run" in kinds:
+            r = clone()        # P1: a second instance while the first lives
+            for g in r["obs"]:
+                for i, e in enumerate(g["ev"]):
+                    if e["k"] == "deliver":
+                        g["ev"].insert(i, {"k": "agent_run", "u": e["u"], "route": 1, "params": {"id": e["u"].split("/")[-1]}, "n": e["n"] + 1})
+                        break
+                else:
+                    continue
+                break
+            out.append(("%s/second-instance" % cid, case, r))
+            r = clone()        # P2: delivered to an instance of another node
+            done = False
+            for g in r["obs"]:
+                for e in g["ev"]:
+                    if e["k"] == "deliver" and not done:
+                        e["u"] = "/a/y" if e["u"] != "/a/y" else "/a/x"
+                        done = True
+            out.append(("%s/other-node" % cid, case, r))
+            r = clone()        # P4: an envelope vanishes
+            done = False
+            for g in r["obs"]:
+                for i, e in enumerate(g["ev"]):
+                    if e["k"] == "deliver" and e["op"] == "command" and not done:
+                        del g["ev"][i]
+                        done = True
+                        break
+            if done:
+                out.append(("%s/lost" % cid, case, r))
+            r = clone()        # P2: delivered twice
+            done = False
+            for g in r["obs"]:
+                for i, e in enumerate(g["ev"]):
+                    if e["k"] == "deliver" and e["op"] == "command" and not done:
+                        g["ev"].insert(i, dict(e))
+                        done = True
+                        break
+            if done:
+                out.append(("%s/twice" % cid, case, r))
+            r = clone()        # P2: wrong route parameters
+            for g in r["obs"]:
+                for e in g["ev"]:
+                    if e["k"] == "agent_run":
+                        e["params"] = {"id": "other"}
+            out.append(("%s/params" % cid, case, r))
+        nf = [(gi, i) for gi, g in enumerate(res["obs"]) for i, e in enumerate(g["ev"]) if e["k"] == "recv" and e["msg"].get("body") == "@nodeNotFound"]
+        if nf:
+            gi, i = nf[0]
+            r = clone()        # P3: not answered
+            del r["obs"][gi]["ev"][i]
+            out.append(("%s/nf-missing" % cid, case, r))
+            r = clone()        # P3: answered twice
+            r["obs"][gi]["ev"].insert(i, dict(r["obs"][gi]["ev"][i]))
+            out.append(("%s/nf-twice" % cid, case, r))
+        if "server_end" in [e["k"] for e in res.get("end", [])] + kinds:
+            r = clone()        # P5: an instance survives the shutdown
+            for part in [g["ev"] for g in r["obs"]] + [r["end"]]:
+                for i, e in enumerate(part):
+                    if e["k"] == "stopped":
+                        del part[i]
+                        break
+            if r != res:
+                out.append(("%s/survivor" % cid, case, r))
+    return out
+
+
+# ----------------------------------------------------------------------------- run
+
+def kf_text(fid):
+    for f in core.known_findings():
+        if f["id"] == fid:
+            return "%s %s" % (fid, f["what"])
+    return fid
+
+
+def run_k(tier, out, wd=None, prop=PROP):
+    t_all = time.time()
+    wd = wd or core.workdir("KSERVER")
+    os.makedirs(wd, exist_ok=True)
+    open_ids = sorted(f["id"] for f in core.open_findings(prop) if f["id"].startswith("KS"))
+    rng = random.Random(core.seed())
+    heavy = tier != "quick"
+    stats = {"b3": [], "controls": [], "graphs": []}
+
+    def tlc(name, module, cfgtext, workers, timeout=3000, coverage=False, xmx="4g"):
+        return core.run_tlc(module, cfgtext, os.path.join(wd, "tlc_" + name), workers=workers, timeout=timeout, coverage=coverage, xmx=xmx)
+
+    with cf.ThreadPoolExecutor(max_workers=6 if heavy else 12) as ex:
+        f_build = ex.submit(build_server_harness, wd)
+        f_dump = [(d, ex.submit(tlc, d[0], "MC_ServerPlane", mc_cfg(constraints=(), actcons=("Settled", "AfterShutdown", "NoOverflow", "EdgeDump"),
+                                                               invs=("InitDump",), view="View", findings=tuple(open_ids), **d[1]), 1, 3000, False, "8g"))
+                  for d in dump_plan(tier)]
+        f_ctl = [(c, ex.submit(tlc, "ctl_" + c[0], "MC_ServerPlane", mc_cfg(**c[1]), 1)) for c in control_plan()]
+        f_b3 = [(b, ex.submit(tlc, "b3_" + b[0], "MC_ServerPlane", mc_cfg(invs=INVS, props=PROPS, **b[1]), 4 if heavy else 2, 3000, not heavy))
+                for b in b3_plan(tier, open_ids)]
+        if heavy:
+            live = dict(uris=("ax", "c"), remotes=(1, 2), ops=("link", "command"), maxsend=2, findings=tuple(open_ids))
+            f_live = ex.submit(tlc, "b3_live", "MC_ServerPlane", mc_cfg(spec="LiveSpec", props=["ShutdownCompletes"], **live), 4)
+        else:
+            f_live = None
+
+        # ---- B1: replay the settled graphs on the real server task
+        f_build.result()
+        totals = collections.Counter()
+        kf_hits = collections.Counter()
+        not_m = []          # executions that are no behaviour of M: (id, case, result, info)
+        sample_ok = []
+        cid = 0
+        for d, fu in f_dump:
+            name, kw, walks, depth = d
+            r = fu.result()
+            if not r.ok:
+                raise core.ToolError("graph dump %s failed: %s" % (name, r.status))
+            t0 = time.time()
+            G = SGraph(r.tagged["EDGE"], r.tagged["INIT"])
+            r.tagged.clear()
+            scripts = {}
+            for p in G.paths(rng, walks, depth):
+                g = groups_of(p)
+                if g:
+                    scripts.setdefault(core.canon(g), g)
+            scripts = list(scripts.values())
+            cases = []
+            for g in scripts:
+                cid += 1
+                cases.append({"id": "%s.%d" % (name, cid), "cfg": harness_cfg(kw), "groups": concretise(g)})
+            results = run_cases(cases, wd, name, jobs=8)
+            covered = set()
+            st = collections.Counter()
+            for g, c, res in zip(scripts, cases, results):
+                st["groups"] += len(g)
+                if res.get("panic") is not None:
+                    st["panic"] += 1
+                    not_m.append((c["id"], c, res, {"graph": name, "status": "panic", "model_groups": g}))
+                    continue
+                og, oe = observed_groups(res)
+                v = include(G, g, og, oe)
+                st[v["status"]] += 1
+                covered |= v["edges"]
+                for k in v["kf"]:
+                    kf_hits[k] += 1
+                if v["status"] == "diverges":
+                    not_m.append((c["id"], c, res, {"graph": name, "status": "diverges", "at": v["at"], "model_groups": g}))
+                elif len(sample_ok) < 2 and len(g) >= 5:
+                    sample_ok.append({"graph": name, "script": g, "observed_first_groups": og[:6]})
+            env_edges = [e for e in range(G.n_edges) if G.edge_kind[e] in ENV_KINDS]
+            info = {"graph": name, "states": len(G.ids), "edges": G.n_edges, "tlc_wall_s": round(r.wall, 1), "scripts": len(scripts),
+                    "groups": st["groups"], "behaviours_of_M": st["behaviour"], "left_scope": st["bound"], "script_artefact": st["disabled"],
+                    "not_behaviours_of_M": st["diverges"] + st["panic"], "edges_confirmed_by_real_runs": len(covered),
+                    "env_edges": len(env_edges), "env_edges_confirmed": sum(1 for e in env_edges if e in covered),
+                    "replay_wall_s": round(time.time() - t0, 1)}
+            stats["graphs"].append(info)
+            totals.update(st)
+            core.log("[KSERVER] %-16s %d states %d edges (TLC %.0fs): %d scripts / %d groups -> behaviours of M %d, left scope %d, NOT of M %d; "
+                     "edges confirmed %d/%d (env %d/%d) %.0fs" % (name, len(G.ids), G.n_edges, r.wall, len(scripts), st["groups"], st["behaviour"],
+                                                                  st["bound"], st["diverges"] + st["panic"], len(covered), G.n_edges,
+                                                                  info["env_edges_confirmed"], len(env_edges), time.time() - t0))
+            del G
+
+        # ---- B2: P decides what is not a behaviour of M, and the directed scenarios
+        directed = directed_cases(core.seed())
+        dres = run_cases(directed, wd, "directed", jobs=4)
+        items = [(i, c, r) for (i, c, r, _) in not_m[:400]] + [("directed." + c["id"], c, r) for c, r in zip(directed, dres)]
+        verdicts = p_validate(items, wd, "p", open_ids)
+        info_of = {i: inf for (i, _, _, inf) in not_m}
+        n_rej = n_drift = 0
+        accepted_items = []
+        for cid_, case, res in items:
+            v = verdicts[str(cid_)]
+            for k in v["kf"]:
+                kf_hits[k] += 1
+            if v["accepted"] and res.get("panic") is None:
+                accepted_items.append((cid_, case, res))
+                if cid_ in info_of:
+                    n_drift += 1
+                    if n_drift <= 3:
+                        out.notes.append("MODEL-DRIFT ServerPlane: case %s is no behaviour of M from group %s on, P accepts it" % (cid_, info_of[cid_].get("at")))
+                if "expect_meta_collision" in case and res.get("meta_collision") != case["expect_meta_collision"]:
+                    n_rej += 1
+                    out.violation("ServerPlane: PlaneModel::check_meta_collisions says %s for the routes %s (a route shaped like the node meta "
+                                  "route must be reported, others must not)" % (res.get("meta_collision"), case["cfg"]["routes"]),
+                                  {"component": "ServerPlane", "case": case, "observed": res, "info": None})
+                want = case.get("expect_kf")
+                if want and want in open_ids and want not in v["kf"]:
+                    out.notes.append("directed scenario %s did not reproduce %s" % (cid_, want))
+            else:
+                n_rej += 1
+                what = "ServerPlane: case %s: P rejects the execution of the real server task at event %s: %s%s" % (
+                    cid_, v.get("at"), json.dumps(v.get("ev")), (" PANIC " + str(res.get("panic"))) if res.get("panic") else "")
+                out.violation(what, {"component": "ServerPlane", "case": case, "observed": res, "info": info_of.get(cid_)})
+        # P's own negative control
+        # (bases: executions in which no instance stops before the falsified event could be excused by it)
+        calm = lambda case: not any(a["k"] in ("timeout", "fail", "finish", "release", "send_at", "advance") for g in case["groups"] for a in g)
+        tam = tampered([x for x in accepted_items if calm(x[1])][:12])
+        if len(tam) < 10 and not n_rej:
+            raise core.ToolError("too few executions to falsify (%d)" % len(tam))
+        tv = p_validate(tam, wd, "tamper", open_ids)
+        missed = [i for i, _, _ in tam if tv[str(i)]["accepted"]]
+        if missed:
+            raise core.ToolError("Trace_ServerPlane accepts falsified executions: %s" % missed[:10])
+        for k, n in sorted(kf_hits.items()):
+            if k in open_ids:
+                out.known_finding("%s; reproduced on the real server task in %d executions" % (kf_text(k), n))
+            else:
+                raise core.ToolError("finding %s was used as an excuse although it is not open" % k)
+
+        # ---- B3 results
+        tot_states = tot_trans = 0
+        cov = {}
+        for b, fu in f_b3:
+            r = fu.result()
+            if not r.ok:
+                raise core.ToolError("the mechanism model breaks P in run '%s' (%s %s):\n%s" % (b[0], r.status, r.violated, r.counterexample[:3000]))
+            tot_states += r.distinct
+            tot_trans += r.generated
+            for a, (dd, tt) in r.coverage.items():
+                o = cov.get(a, (0, 0))
+                cov[a] = (o[0] + dd, o[1] + tt)
+            stats["b3"].append({"run": b[0], "states": r.distinct, "transitions": r.generated, "depth": r.depth, "tlc_wall_s": round(r.wall, 1),
+                                "scope": {k: v for k, v in b[1].items() if k != "findings"}})
+            core.log("[KSERVER] B3 %-14s %d states, %d transitions, depth %d (TLC %.0fs)" % (b[0], r.distinct, r.generated, r.depth, r.wall))
+        if f_live is not None:
+            r = f_live.result()
+            if not r.ok:
+                raise core.ToolError("liveness ShutdownCompletes fails on the model: %s\n%s" % (r.status, r.counterexample[:2000]))
+            stats["b3"].append({"run": "liveness ShutdownCompletes", "states": r.distinct, "transitions": r.generated, "tlc_wall_s": round(r.wall, 1)})
+        for c, fu in f_ctl:
+            r = fu.result()
+            if r.ok or r.violated != c[2]:
+                raise core.ToolError("negative control '%s' on the model found %s instead of a violation of %s" % (c[0], r.violated, c[2]))
+            stats["controls"].append({"control": c[0], "breaks": r.violated, "states_to_counterexample": r.distinct})
+    never = sorted(a for a, (dd, tt) in cov.items() if tt == 0)
+    out.add(states=tot_states, transitions=tot_trans,
+            traces_validated_against_impl=totals["behaviour"] + totals["bound"] + len(accepted_items))
+    out.add(kserver={
+        "b3_runs": stats["b3"], "negative_controls_on_model": stats["controls"], "graphs": stats["graphs"],
+        "executions_behaviours_of_M": totals["behaviour"], "executions_left_modelled_scope": totals["bound"],
+        "executions_not_of_M": len(not_m), "of_those_accepted_by_P": n_drift, "directed_scenarios": len(directed),
+        "p_rejections": n_rej, "falsified_executions_rejected_by_P": len(tam),
+        "known_findings_hit": dict(kf_hits), "actions_never_taken": never,
+        "action_coverage": {a: {"distinct": dd, "taken": tt} for a, (dd, tt) in cov.items()},
+        "wall_s": round(time.time() - t_all, 1)})
+    for s_ in sample_ok:
+        out.sample(s_)
+    out.assumptions += [
+        "ServerPlane: the network is in memory (tokio duplex streams behind the ExternalConnections / Websockets traits, no HTTP "
+        "upgrade), one thread, paused clock; envelopes are written when the system is quiet or in bursts of up to MaxBurst",
+        "ServerPlane: downlinks opened by agents (client connections, LocalClient / RemoteClientRequest events) and HTTP lanes are not exercised",
+    ]
+    core.log("[KSERVER] %d executions: behaviours of M %d, left scope %d, not of M %d (P accepts %d), directed %d, P rejections %d, findings %s, wall %.0fs" % (
+        totals["behaviour"] + totals["bound"] + len(not_m), totals["behaviour"], totals["bound"], len(not_m), n_drift, len(directed), n_rej,
+        dict(kf_hits), time.time() - t_all))
+
+
+def replay(path, out):
+    wd = core.workdir("KSERVER_replay")
+    obj = json.load(open(path))["replay"]
+    case = obj["case"]
+    build_server_harness(wd)
+    res = run_cases([case], wd, "replay", jobs=1)[0]
+    open_ids = sorted(f["id"] for f in core.open_findings(PROP) if f["id"].startswith("KS"))
+    for gi, g in enumerate(res.get("obs", [])):
+        print("group %d" % gi)
+        for e in g["ev"]:
+            print("    " + json.dumps(e))
+    print("end")
+    for e in res.get("end", []):
+        print("    " + json.dumps(e))
+    if res.get("panic") is not None:
+        print("PANIC", res["panic"])
+    v = p_validate([("replay", case, res)], wd, "replay", open_ids)["replay"]
+    bad = (not v["accepted"]) or res.get("panic") is not None
+    print("P verdict: %s%s; known findings used: %s" % ("rejected" if bad else "accepted",
+                                                         (" at event %s %s" % (v.get("at"), json.dumps(v.get("ev")))) if not v["accepted"] else "", v["kf"]))
+    if bad:
+        print("VIOLATION property=%s replay=%s" % (PROP, path))
+        return 1
+    return 0
